@@ -977,7 +977,7 @@ theorem WFApi.okAnd_iff {α : Type} (r : Except Err α) (P : α → Bool) :
 /-- `make_empty(cov_pixels=[3, 0, 3])`: the repeat is dropped, two blocks are allocated in the
     order given, the map is well formed; `cov_pixels=[12]` with 12 coverage pixels is refused -/
 example : okAnd (apiMakeEmpty 0 0 (.plain (.int 32 true)) none [3, 0, 3])
-      (fun m => decide m.WF && m.st.sp.size == 3 && m.st.cov.toList.take 4 == [2, 0, 0, -2]) = true ∧
+      (fun m => decide m.WF && m.st.sp.size == 3 && decide (m.st.cov.toList.take 4 = [2, -1, -2, -2])) = true ∧
     (match apiMakeEmpty 0 0 (.plain (.int 32 true)) none [12] with
      | .error .index => true
      | _ => false) = true := by
